@@ -198,7 +198,16 @@ fn main() {
             // ---- PDF
             if let Some(pt) = &pdf_text {
                 cnt.inc("pdf_values");
-                let runs: Vec<&str> = pt.lines().map(|l| l.trim()).collect();
+                // a wide negative figure may be laid out as two runs ("-" and the rest): glue them
+                let mut glued: Vec<String> = Vec::new();
+                let mut carry = String::new();
+                for l in pt.lines().map(|l| l.trim()) {
+                    if l == "-" { carry = "-".into(); continue; }
+                    glued.push(format!("{carry}{l}"));
+                    carry.clear();
+                }
+                let glued: Vec<String> = glued.iter().map(|s| unsign_zero(s)).collect();
+                let runs: Vec<&str> = glued.iter().map(|s| s.as_str()).collect();
                 // summary table: the label, the count, then six money cells
                 match runs.iter().position(|r| *r == label) {
                     None => bad.push(format!("PDF lacks the tax-year label {label}")),
